@@ -141,6 +141,17 @@ Section Res.
      | None => map (fun j => map (vec_at j) inds) (seq 0 nparams)
      end).
 
+  (* pareto_individuals / pareto_front(population_id): the individuals of the queried population whose
+     feature 'front_number' is 1 (front1: that recorded feature), and their costs, one list per goal *)
+  Definition pareto_individuals (front1 : rec -> bool) (pid : Z) (rs : list rec) : list rec :=
+    filter front1 (results_population pid rs).
+  Definition pareto_front (front1 : rec -> bool) (ngoals : nat) (pid : Z) (rs : list rec) : list (list T) :=
+    let inds := pareto_individuals front1 pid rs in map (fun j => map (cost_at j) inds) (seq 0 ngoals).
+  (* pareto_values(): the cost vectors of the last population when it has more than one member
+     (the computed set handed to the indicators by performance_measure) *)
+  Definition pareto_values (rs : list rec) : list (list T) :=
+    let l := last_population rs in if Nat.ltb 1 (length l) then map r_costs l else [].
+
   (* Python's min(iterable, key=) / max(iterable, key=): the FIRST extremal element *)
   Fixpoint first_min (key : rec -> T) (best : rec) (l : list rec) : rec :=
     match l with
